@@ -270,13 +270,22 @@ func (vc *VC) contractWrites(ct *Contract, params map[string]types.Type, wk *wri
 			for _, ab := range vc.eng.db.Abstracts {
 				wk.add("A:" + ab.Name)
 			}
-		case "field", "elems", "fields", "cell":
+		case "field", "elems", "fields", "cell", "map":
 			t := vc.eng.staticType(mi.E, params)
 			if t == nil {
 				wk.all = true
 				return
 			}
 			switch mi.Kind {
+			case "map":
+				if mt, ok := t.Underlying().(*types.Map); ok {
+					base := "M:" + typeStr(mt.Key()) + "->" + typeStr(mt.Elem())
+					wk.add(base + "#has")
+					wk.add(base + "#val")
+					wk.add(base + "#card")
+				} else {
+					wk.all = true
+				}
 			case "cell":
 				if p, ok := t.Underlying().(*types.Pointer); ok {
 					wk.add("C:" + typeStr(p.Elem()))
@@ -319,6 +328,38 @@ func (vc *VC) contractWrites(ct *Contract, params map[string]types.Type, wk *wri
 				default:
 					wk.all = true
 				}
+			}
+		case "tmap", "tfelems":
+			j := strings.LastIndex(mi.Name, ".")
+			t := vc.eng.typeByText(mi.Name[:j])
+			st, _, ok := structOf(t)
+			if !ok {
+				wk.all = true
+				return
+			}
+			fi := fieldIndex(st, mi.Name[j+1:])
+			if fi < 0 {
+				wk.all = true
+				return
+			}
+			ft := st.Field(fi).Type()
+			if mi.Kind == "tmap" {
+				mt, ok := ft.Underlying().(*types.Map)
+				if !ok {
+					wk.all = true
+					return
+				}
+				base := "M:" + typeStr(mt.Key()) + "->" + typeStr(mt.Elem())
+				wk.add(base + "#has")
+				wk.add(base + "#val")
+				wk.add(base + "#card")
+			} else {
+				sl, ok := ft.Underlying().(*types.Slice)
+				if !ok {
+					wk.all = true
+					return
+				}
+				vc.elemKeys(sl.Elem(), wk)
 			}
 		case "tfield":
 			j := strings.LastIndex(mi.Name, ".")
@@ -407,7 +448,7 @@ func (vc *VC) evalModifies(ct *Contract, sc *Scope, post *State) (*modSet, error
 		case "everything":
 			ms.all = true
 		case "nothing":
-		case "tfield", "tfields", "telems":
+		case "tfield", "tfields", "telems", "tmap", "tfelems":
 			wk := &writeSet{}
 			c2 := &Contract{Modifies: []ModItem{mi}}
 			vc.contractWrites(c2, nil, wk)
@@ -416,6 +457,31 @@ func (vc *VC) evalModifies(ct *Contract, sc *Scope, post *State) (*modSet, error
 			}
 			for k := range wk.keys {
 				ms.keyAll[k] = true
+			}
+		case "map":
+			states := []*State{sc.cur}
+			if post != nil {
+				states = append(states, post)
+			}
+			for _, stt := range states {
+				sc2 := *sc
+				sc2.cur = stt
+				v, err := sc2.eval(mi.E)
+				if err != nil {
+					return nil, err
+				}
+				mt, ok := v.typ.Underlying().(*types.Map)
+				r, isRef := v.sym.(sv)
+				if !ok || !isRef {
+					return nil, fmt.Errorf("modifies %s: not a map", mi.Src)
+				}
+				mk := (&frame{vc: vc}).mapKeys(mt)
+				vc.keyOf(mk.has, mk.hasSort)
+				vc.keyOf(mk.val, mk.valSort)
+				vc.keyOf(mk.card, "(Array Int Int)")
+				for _, k := range []string{mk.has, mk.val, mk.card} {
+					ms.refs[k] = append(ms.refs[k], r.t)
+				}
 			}
 		case "ghost":
 			v, err := sc.eval(mi.E)
@@ -558,6 +624,27 @@ func (vc *VC) applyHavoc(st *State, ms *modSet) {
 			h = fmt.Sprintf("(store %s %s %s)", h, r, hv)
 		}
 		st.heap[k] = vc.define("H_"+ki.name, ki.sort, h)
+	}
+	// havocked slice headers stay well-formed
+	for _, k := range ks {
+		if !strings.HasSuffix(k, "#arr") || ms.keyAll[k] || vc.keys[k] == nil || vc.keys[k].sort != "(Array Int Int)" {
+			continue
+		}
+		pre := strings.TrimSuffix(k, "#arr")
+		for _, r := range ms.refs[k] {
+			var p [4]Term
+			okAll := true
+			for j, suf := range []string{"#arr", "#off", "#len", "#cap"} {
+				if vc.keys[pre+suf] == nil {
+					okAll = false
+					break
+				}
+				p[j] = fmt.Sprintf("(select %s %s)", vc.heapGet(st, pre+suf, "(Array Int Int)"), r)
+			}
+			if okAll {
+				vc.emit(fmt.Sprintf("(assert (and (<= 0 %s) (<= 0 %s) (<= 0 %s) (<= %s %s) (<= (+ %s %s) %s) (=> (= %s 0) (= %s 0))))", p[0], p[1], p[2], p[2], p[3], p[1], p[3], maxSliceLen, p[0], p[3]))
+			}
+		}
 	}
 	ks = ks[:0]
 	for k := range ms.arrs {
